@@ -30,6 +30,8 @@ HARNESS = {
     "shim_pair": dict(kind="shim", proved=False, fns=["nom::sequence::pair"], bound="input <= 4 bytes, cheap element parser (all result classes, non-consuming success included)"),
     "shim_map_parser": dict(kind="shim", proved=False, fns=["nom::combinator::map_parser"], bound="input <= 5 bytes, count usize full domain, cheap inner parser"),
 }
+HARNESS["shim_chunks_map_collect"] = dict(kind="shim", proved=False, fns=["<[T]>::chunks + Iterator::map + collect::<Vec<_>> (core/alloc)"], bound="slice <= 7 bytes, chunk size usize full domain (> 0)")
+HARNESS["shim_iter_map_collect"] = dict(kind="shim", proved=False, fns=["<[T]>::iter + Iterator::map + collect::<Vec<_>> (core/alloc)"], bound="slice <= 5 bytes")
 def _leaf(name, fns, bound, kind="leaf", proved=False):
     HARNESS[name] = dict(kind=kind, proved=proved, fns=fns if isinstance(fns, list) else [fns], bound=bound)
 
@@ -154,8 +156,8 @@ PROPS = {
     ),
     "C05": dict(
         level="proof",
-        level_text="Dispatch tables, GREASE/Unknown preservation, exact consumption, 'length beyond the block never yields a value', agreement of the three dispatchers and tag == wire type: unbounded deductive proof (Verus) on the real dispatcher bodies for all 65536 types and all data lengths, content parsers abstract. The 16 tag-specific parsers: unbounded (Verus, unit tagged, on the real bodies): each accepts exactly its own two type bytes (nom's streaming tag: a mismatching byte is Error(Tag) even on a short input), frames the u16-length-prefixed data and returns its content parser's verdict on exactly the declared bytes; lemmas: any other wire type is rejected, and the outcome equals the generic dispatcher's for that type (per-row premise 'the generic table sends this type to the same content parser' proved for all 16 rows; heartbeat additionally rejects a declared length other than 1 before framing - the recorded known finding). List parsers: explicit accumulate-while-Ok loops (units ext_lists, ext_lists2). Content parsers: all 26 proved in Verus (units ext_contents, ext_lists2, bodies: every field at its offset, every rejection rule, every cut-off Incomplete; elliptic_curves / supported_versions relative to the named-group / version list helpers, whose iterator-adapter bodies are assumed with the contracts their Kani leaves check); all of them, and the tag-specific and list parsers again, have contracts checked by Kani on the compiled code, complete in byte contents and in every u8/u16 parameter, bounded in input length (bounded model checking, not proof).",
-        level_note="Trusted: nom shim contracts be_u16/length_data (assumed in Verus, checked by Kani shim_* harnesses on the real nom); each content parser is an uninterpreted function in units dispatch_ext / tagged with the single assumed fact 'on success it returns its own variant' (an obligation of that parser's Kani leaf harness, and a consequence of its contract proved in units ext_contents / ext_lists2 / bodies); <[T]>::to_vec is given its std specification by assume_specification; parse_named_groups / parse_tls_versions are assumed with their Kani leaf contracts (bounded in list length); IANA code-point table transcribed by hand (verus/units/dispatch_ext.py TABLE); rewrites R0, R5, R6, R8 (From::from lifted to a free fn).",
+        level_text="Dispatch tables, GREASE/Unknown preservation, exact consumption, 'length beyond the block never yields a value', agreement of the three dispatchers and tag == wire type: unbounded deductive proof (Verus) on the real dispatcher bodies for all 65536 types and all data lengths, content parsers abstract. The 16 tag-specific parsers: unbounded (Verus, unit tagged, on the real bodies): each accepts exactly its own two type bytes (nom's streaming tag: a mismatching byte is Error(Tag) even on a short input), frames the u16-length-prefixed data and returns its content parser's verdict on exactly the declared bytes; lemmas: any other wire type is rejected, and the outcome equals the generic dispatcher's for that type (per-row premise 'the generic table sends this type to the same content parser' proved for all 16 rows; heartbeat additionally rejects a declared length other than 1 before framing - the recorded known finding). List parsers: explicit accumulate-while-Ok loops (units ext_lists, ext_lists2). Content parsers: all 26 proved in Verus (units ext_contents, ext_lists2, bodies: every field at its offset, every rejection rule, every cut-off Incomplete; the named-group / version list helpers parse_named_groups / parse_tls_versions are proved too: guards, slicing and the element closure verbatim, the `chunks(2).map(..).collect()` chain named as the std shim function chunks_map_collect - rule R17); all of them, and the tag-specific and list parsers again, have contracts checked by Kani on the compiled code, complete in byte contents and in every u8/u16 parameter, bounded in input length (bounded model checking, not proof).",
+        level_note="Trusted: nom shim contracts be_u16/length_data (assumed in Verus, checked by Kani shim_* harnesses on the real nom); each content parser is an uninterpreted function in units dispatch_ext / tagged with the single assumed fact 'on success it returns its own variant' (an obligation of that parser's Kani leaf harness, and a consequence of its contract proved in units ext_contents / ext_lists2 / bodies); <[T]>::to_vec is given its std specification by assume_specification; the std chain `s.chunks(c).map(f).collect()` is assumed to be what core/alloc define it to be (verus/shim_std.rs; Kani shim_chunks_map_collect on the real std, slice <= 7 bytes, chunk size full domain); IANA code-point table transcribed by hand (verus/units/dispatch_ext.py TABLE); rewrites R0, R5, R6, R8 (From::from lifted to a free fn).",
         technique="contract-based deductive verification: Verus postconditions on extracted dispatchers + Kani contract harnesses per content parser",
         verus=["dispatch_ext", "ext_lists", "bodies", "ext_contents", "ext_lists2", "tagged"],
         kani=[dict(quick=["fd_ext_max_fragment_length", "fd_ext_heartbeat", "fd_ext_record_size_limit", "fd_ext_encrypt_then_mac", "fd_ext_extended_master_secret",
@@ -163,12 +165,12 @@ PROPS = {
                           "leaf_ext_unknown", "leaf_ext_elliptic_curves", "leaf_named_groups", "leaf_ext_signature_algorithms", "leaf_ext_alpn", "leaf_ext_sni", "leaf_ext_esni",
                           "leaf_ext_session_ticket", "leaf_ext_key_share_old", "leaf_ext_key_share", "leaf_ext_pre_shared_key", "leaf_ext_cookie", "leaf_ext_padding",
                           "leaf_ext_status_request", "leaf_ext_early_data", "leaf_ext_supported_versions", "leaf_ext_oid_filters", "shim_be", "shim_length_data",
-                          "shim_tag", "shim_verify", "shim_take", "shim_map_parser"]
+                          "shim_tag", "shim_verify", "shim_take", "shim_map_parser", "leaf_tls_versions", "shim_chunks_map_collect"]
                          + ["rel_tag_rej_" + t for t in _TAGS]
                          + ["rel_tag_" + t for t in _TAGS if t not in ("sni", "elliptic_curves", "signature_algorithms", "supported_versions", "psk_key_exchange_modes")],
                    thorough=["rel_tag_sni", "rel_tag_elliptic_curves", "rel_tag_signature_algorithms", "rel_tag_supported_versions", "rel_tag_psk_key_exchange_modes"], timeout=900, timeout_thorough=2400)],
         witness_search={"dispatch_ext": {"ext_search": True}},
-        paired={'ext_contents': ['leaf_ext_psk_modes', 'leaf_ext_supported_versions', 'leaf_ext_elliptic_curves', 'leaf_ext_esni', 'leaf_ext_ec_point_formats', 'leaf_ext_early_data'], 'ext_lists2': ['leaf_ext_sni', 'leaf_ext_alpn', 'leaf_ext_signature_algorithms', 'leaf_ext_oid_filters']},
+        paired={'ext_contents': ['leaf_named_groups', 'leaf_tls_versions', 'leaf_ext_psk_modes', 'leaf_ext_supported_versions', 'leaf_ext_elliptic_curves', 'leaf_ext_esni', 'leaf_ext_ec_point_formats', 'leaf_ext_early_data'], 'ext_lists2': ['leaf_ext_sni', 'leaf_ext_alpn', 'leaf_ext_signature_algorithms', 'leaf_ext_oid_filters']},
         explanation="see level_text",
     ),
     "C03": dict(
@@ -196,16 +198,16 @@ PROPS = {
     ),
     "C04": dict(
         level="proof",
-        level_text="Dispatcher: unbounded deductive proof (Verus) on the real parse_tls_message_handshake body - type/u24 framing, type -> body-parser table for all 256 codes, body isolated to exactly the declared bytes before any body parser runs, exact consumption, Switch for unknown types, Incomplete(missing) for cut-off messages. Bodies: one Kani contract harness per body parser on the compiled code against an index-based reference decoder written from the RFCs (every field, order, presence/absence, every rejection rule of the property as its own assertion, pointer-exact slices): complete in byte contents and in every integer parameter, BOUNDED in input length. Unbounded as well (Verus, units bodies / bodies2 / hellos, on the real bodies): ClientHello (every field at its offset, session id present iff its length byte is non-zero, cipher and compression ids in wire order, optional extension block; session-id length > 32, odd or overlong cipher list, overlong compression list rejected, every cut-off mandatory field Incomplete), ServerHello for SSL 3.0..TLS 1.2 and the draft-18 layout incl. the legacy-version switch of both entry points (0x0300 without extensions, 0x0301..0x0303 with, 0x7f12 draft 18, everything else Error(Tag)), HelloRetryRequest, NewSessionTicket, CertificateStatus, NextProtocol, HelloRequest, the one-blob bodies ServerKeyExchange / ServerDone / CertificateVerify / Finished, and Certificate (unit certs: u24 list length, the list window is exactly the declared bytes, certificates = the explicit accumulate-while-Ok loop of the u24-prefixed entry parser over the window, a list longer than the body is Incomplete) and CertificateRequest (unit certreq: both layouts field by field - certificate types = the counted bytes, signature algorithms = the explicit be_u16 loop over exactly the declared window, distinguished names = the explicit loop of the u16-prefixed name reader over exactly the declared window - and the entry point = the TLS 1.2 layout made complete, else the older layout made complete). In Kani ClientHello is verified modularly against the contracts of the cipher/compression list helpers, which have their own leaf harnesses (the same contracts are what the Verus proof of ClientHello assumes for them).",
-        level_note="Trusted: nom shim contracts be_u8/be_u24/take (Kani shim_be, shim_take); body parsers are uninterpreted in Verus with the assumed fact 'on success returns its own variant' (asserted by each Kani leaf); reference decoders in /verif/kani/pub_c04_handshake.rs are hand-written from RFC 5246/8446/5077/6066; contract stubs for parse_cipher_suites/parse_compressions_algs return an unconstrained (dummy) list content - the caller never inspects it.",
+        level_text="Dispatcher: unbounded deductive proof (Verus) on the real parse_tls_message_handshake body - type/u24 framing, type -> body-parser table for all 256 codes, body isolated to exactly the declared bytes before any body parser runs, exact consumption, Switch for unknown types, Incomplete(missing) for cut-off messages. Bodies: one Kani contract harness per body parser on the compiled code against an index-based reference decoder written from the RFCs (every field, order, presence/absence, every rejection rule of the property as its own assertion, pointer-exact slices): complete in byte contents and in every integer parameter, BOUNDED in input length. Unbounded as well (Verus, units bodies / bodies2 / hellos, on the real bodies): ClientHello (every field at its offset, session id present iff its length byte is non-zero, cipher and compression ids in wire order, optional extension block; session-id length > 32, odd or overlong cipher list, overlong compression list rejected, every cut-off mandatory field Incomplete), ServerHello for SSL 3.0..TLS 1.2 and the draft-18 layout incl. the legacy-version switch of both entry points (0x0300 without extensions, 0x0301..0x0303 with, 0x7f12 draft 18, everything else Error(Tag)), HelloRetryRequest, NewSessionTicket, CertificateStatus, NextProtocol, HelloRequest, the one-blob bodies ServerKeyExchange / ServerDone / CertificateVerify / Finished, and Certificate (unit certs: u24 list length, the list window is exactly the declared bytes, certificates = the explicit accumulate-while-Ok loop of the u24-prefixed entry parser over the window, a list longer than the body is Incomplete) and CertificateRequest (unit certreq: both layouts field by field - certificate types = the counted bytes, signature algorithms = the explicit be_u16 loop over exactly the declared window, distinguished names = the explicit loop of the u16-prefixed name reader over exactly the declared window - and the entry point = the TLS 1.2 layout made complete, else the older layout made complete). The cipher-suite / compression list helpers parse_cipher_suites / parse_compressions_algs are proved in Verus as well (unit hellos, rule R17: guards, slicing and the element closure verbatim; only the std iterator chain `chunks(2).map(f).collect()` / `iter().map(f).collect()` is a shim function with the std definition as its assumed contract, checked on the real core/alloc by Kani shim_chunks_map_collect / shim_iter_map_collect). In Kani ClientHello is verified modularly against the contracts of those helpers, which have their own leaf harnesses.",
+        level_note="Trusted: nom shim contracts be_u8/be_u24/take (Kani shim_be, shim_take); body parsers are uninterpreted in Verus with the assumed fact 'on success returns its own variant' (asserted by each Kani leaf); reference decoders in /verif/kani/pub_c04_handshake.rs are hand-written from RFC 5246/8446/5077/6066; the std iterator chains of the two list helpers (verus/shim_std.rs: assumed = std's definition, Kani shim_chunks_map_collect / shim_iter_map_collect, bounded in slice length); Kani contract stubs for parse_cipher_suites/parse_compressions_algs return an unconstrained (dummy) list content - the caller never inspects it.",
         technique="contract-based deductive verification: Verus on the extracted dispatcher + Kani contract harnesses per body parser (modular for ClientHello)",
         verus=["dispatch_hs", "bodies", "bodies2", "hellos", "certs", "certreq"],
         kani=[dict(quick=["leaf_hs_ske", "leaf_hs_serverdone", "leaf_hs_certverify", "leaf_hs_cke", "leaf_hs_finished", "fd_hs_hello_request", "fd_hs_key_update",
                           "leaf_hs_newsessionticket", "leaf_hs_hello_retry_request", "leaf_hs_server_hello_msg", "leaf_hs_server_hello", "leaf_hs_certificatestatus",
                           "leaf_hs_next_protocol", "leaf_hs_certificate", "mod_client_hello", "mod_client_hello_long", "leaf_hs_client_hello_sid33", "leaf_cipher_suites", "leaf_compressions",
-                          "shim_be", "shim_take", "shim_length_data", "shim_opt_cond", "shim_verify", "shim_length_count", "shim_alt", "shim_map_parser", "shim_many0", "shim_complete"],
+                          "shim_be", "shim_take", "shim_length_data", "shim_opt_cond", "shim_verify", "shim_length_count", "shim_alt", "shim_map_parser", "shim_many0", "shim_complete", "shim_chunks_map_collect", "shim_iter_map_collect"],
                    thorough=["leaf_hs_certificate_request"], timeout=900, timeout_thorough=2400)],
-        paired={'dispatch_hs': [], 'hellos': ['leaf_hs_server_hello', 'leaf_hs_server_hello_msg', 'mod_client_hello', 'leaf_hs_ske', 'leaf_hs_cke', 'leaf_hs_finished'], 'certs': ['leaf_hs_certificate'], 'bodies': ['leaf_hs_newsessionticket', 'leaf_hs_certificatestatus', 'leaf_hs_next_protocol'], 'bodies2': ['leaf_hs_hello_retry_request', 'leaf_hs_server_hello_msg']},
+        paired={'dispatch_hs': [], 'hellos': ['leaf_cipher_suites', 'leaf_compressions', 'leaf_hs_server_hello', 'leaf_hs_server_hello_msg', 'mod_client_hello', 'leaf_hs_ske', 'leaf_hs_cke', 'leaf_hs_finished'], 'certs': ['leaf_hs_certificate'], 'bodies': ['leaf_hs_newsessionticket', 'leaf_hs_certificatestatus', 'leaf_hs_next_protocol'], 'bodies2': ['leaf_hs_hello_retry_request', 'leaf_hs_server_hello_msg']},
         explanation="see level_text",
     ),
     "C10": dict(
@@ -215,8 +217,8 @@ PROPS = {
         technique="contract-based deductive verification: Verus on extracted dispatcher/record glue + Kani full-domain header harness and leaf harnesses",
         verus=["dtls", "dtls_many", "bodies2", "hellos"],
         standins=[dict(name="framing_boundaries", kind="bounded-execution", bound="declared lengths {0,1,2,3,16383..16385,16639..16641,32768,65535} x 3 content types x 8 prefix cuts, TLS raw/encrypted/plaintext/tls_parser + DTLS record (372 cases)", payload={"framing_boundary_check": 1})],
-        kani=[dict(quick=["fd_dtls_header", "fd_dtls_ccs_alert", "fd_dtls_is_fragment", "leaf_dtls_hvr", "leaf_dtls_fragment", "mod_dtls_client_hello", "shim_be", "shim_be64", "shim_take", "shim_map_parser", "shim_many1", "shim_verify"], timeout=900)],
-        paired={'hellos': ['mod_dtls_client_hello'], 'dtls': ['fd_dtls_header', 'fd_dtls_is_fragment', 'leaf_dtls_fragment'], 'bodies2': ['leaf_dtls_hvr']},
+        kani=[dict(quick=["fd_dtls_header", "fd_dtls_ccs_alert", "fd_dtls_is_fragment", "leaf_dtls_hvr", "leaf_dtls_fragment", "mod_dtls_client_hello", "leaf_cipher_suites", "leaf_compressions", "shim_be", "shim_be64", "shim_take", "shim_map_parser", "shim_many1", "shim_verify", "shim_chunks_map_collect", "shim_iter_map_collect"], timeout=900)],
+        paired={'hellos': ['mod_dtls_client_hello', 'leaf_cipher_suites', 'leaf_compressions'], 'dtls': ['fd_dtls_header', 'fd_dtls_is_fragment', 'leaf_dtls_fragment'], 'bodies2': ['leaf_dtls_hvr']},
         explanation="see level_text",
     ),
     "C16": dict(
@@ -295,14 +297,14 @@ PROPS = {
     ),
     "C11": dict(
         level="proof",
-        level_text="For each enumerated code point the property lists, the hosting function's contract contains the conjunct 'field == the raw integer at its offset' and the harness leaves that byte/word fully symbolic and unconstrained, so the conjunct is decided for all 256 / 65536 values: record type and version (fd_record_header, Verus frame), alert level/description (fd_msg_alert), heartbeat type, ClientHello/ServerHello versions, cipher-suite and compression ids, extension type (Verus dispatch_ext: Unknown(type, data) for every unrecognised type; leaf_ext_unknown), named groups, signature/hash algorithms, SNI name type, certificate-status type, PSK modes, EC point formats, CT version, key-update value, DTLS header fields. Complete in the field value. The hosting functions are Verus units (unbounded in the length of the surrounding structure) for every listed field except the elements of the cipher-suite / compression / named-group / version lists, whose iterator-adapter helpers are Kani leaves (element value fully symbolic, list length bounded), and the DTLS record header (Kani, full domain).",
+        level_text="For each enumerated code point the property lists, the hosting function's contract contains the conjunct 'field == the raw integer at its offset' and the harness leaves that byte/word fully symbolic and unconstrained, so the conjunct is decided for all 256 / 65536 values: record type and version (fd_record_header, Verus frame), alert level/description (fd_msg_alert), heartbeat type, ClientHello/ServerHello versions, cipher-suite and compression ids, extension type (Verus dispatch_ext: Unknown(type, data) for every unrecognised type; leaf_ext_unknown), named groups, signature/hash algorithms, SNI name type, certificate-status type, PSK modes, EC point formats, CT version, key-update value, DTLS header fields. Complete in the field value. The hosting functions are Verus units (unbounded in the length of the surrounding structure) for every listed field, including the elements of the cipher-suite / compression / named-group / version lists (the four list helpers are proved in Verus since rule R17, relative to the std iterator-chain shim) and the DTLS record header (Verus unit dtls and Kani full domain).",
         level_note="Certificate types of CertificateRequest are hosted by leaf_hs_certificate_request, which only runs in the thorough tier (768 s). No harness assumes anything about a listed field (assumption scan: vassume! is only applied to lengths/selectors).",
         technique="contract conjuncts over fully symbolic enumerated fields: Kani harnesses + Verus postconditions",
         verus=["frame", "dispatch_ext", "ext_contents", "ext_lists2", "messages", "bodies", "hellos", "derived", "sct_content", "certreq", "tagged", "dtls"],
         kani=[dict(quick=["fd_record_header", "fd_raw_record_small", "fd_encrypted_small", "fd_msg_alert", "leaf_msg_heartbeat", "mod_client_hello", "leaf_cipher_suites", "leaf_compressions",
                           "leaf_hs_server_hello_msg", "leaf_hs_hello_retry_request", "leaf_ext_unknown", "leaf_named_groups", "leaf_ext_elliptic_curves", "leaf_ext_signature_algorithms",
                           "leaf_digitally_signed", "leaf_ext_sni", "leaf_ext_status_request", "leaf_hs_certificatestatus", "leaf_ext_psk_modes", "leaf_ext_ec_point_formats",
-                          "leaf_sct_entry", "fd_hs_key_update", "leaf_ec_parameters", "fd_dtls_header", "leaf_ext_supported_versions"],
+                          "leaf_sct_entry", "fd_hs_key_update", "leaf_ec_parameters", "fd_dtls_header", "leaf_ext_supported_versions", "leaf_tls_versions", "shim_chunks_map_collect", "shim_iter_map_collect"],
                    thorough=["leaf_hs_certificate_request"], timeout=900, timeout_thorough=2400)],
         explanation="see level_text",
     ),
@@ -315,7 +317,7 @@ PROPS = {
                "hellos", "certs", "certreq", "tagged", "derived", "sct_content", "accessors"],
         kani=[dict(quick=["leaf_cipher_suites", "leaf_compressions", "leaf_tls_versions", "leaf_named_groups", "leaf_hs_newsessionticket", "leaf_ext_status_request", "leaf_ext_supported_versions",
                           "leaf_sct_entry", "leaf_msg_heartbeat", "leaf_prwh_heartbeat", "leaf_prwh_appdata", "fd_raw_record_small", "mod_client_hello", "mod_dtls_client_hello",
-                          "leaf_hs_certificate", "leaf_ext_sni", "leaf_ec_parameters", "fd_dtls_header", "fd_defrag_default"],
+                          "leaf_hs_certificate", "leaf_ext_sni", "leaf_ec_parameters", "fd_dtls_header", "fd_defrag_default", "shim_chunks_map_collect", "shim_iter_map_collect"],
                    thorough=["leaf_hs_certificate_request", "leaf_sct_list_short", "mod_client_hello_long"], timeout=900, timeout_thorough=2400)],
         standins=[dict(name="debug_format", kind="bounded-execution", bound="22 public parsers x (all inputs of length <= 2 + 276 boundary inputs of length 3..48): every Ok value is formatted with {:?}", payload={"debug_format_check": 1})],
         witness_search={"defrag": {"defrag_search": True, "depth": 3}},
